@@ -150,8 +150,8 @@ func (g *Grammar) clone() *Grammar {
 }
 
 // small constructors used by corpus / regression cases
-func tm(ch byte) *Expr              { return &Expr{K: KTerm, Ch: string([]byte{ch})} }
-func rf(nt int) *Expr               { return &Expr{K: KRef, NT: nt} }
+func tm(ch byte) *Expr               { return &Expr{K: KTerm, Ch: string([]byte{ch})} }
+func rf(nt int) *Expr                { return &Expr{K: KRef, NT: nt} }
 func ex(k Kind, kids ...*Expr) *Expr { return &Expr{K: k, Kids: kids} }
 
 // ---------- static analyses ----------
